@@ -9,6 +9,19 @@ DEFAULT_ENCODINGS = ["utf-8", "cp1252", "cp932", "cp949"]
 REPERTOIRE = {"utf-8": ["猫鍋", "é", "한글", "😀", "—", "a", "e\u0301", "\u212b", "\uf900"], "cp1252": ["café", "Ünï", "£5", "a"],
               "cp932": ["猫鍋", "ｶﾀｶﾅ", "ねこ", "a", "\uf929", "\u212b", "\uf9dc"], "cp949": ["한글", "가나다", "a", "\u212b", "\uf900", "\u2126"]}
 UNDECODABLE = b"#TITLE:\x81 \x81;\n"
+# ... also ones that a code page outside the tried list (gbk, big5, euc-jp, latin-1 reads anything) would decode: found at import time
+def _more_undecodable():
+    import random as _r
+    rr = _r.Random(5); out = {}
+    for _ in range(200000):
+        if len(out) >= 4: break
+        b = bytes(rr.choice([0x81, 0x8e, 0xa1, 0xfd, 0xfe, 0xd0, 0x50, 0x40, 0x80, 0xff, 0xa0, 0xe0]) for _ in range(rr.randrange(2, 5)))
+        data = b"#ARTIST:" + b + b";\n"
+        if any(decodes(data, e) for e in DEFAULT_ENCODINGS): continue
+        for other in ("gbk", "big5", "euc_jp", "euc_kr"):
+            if other not in out and decodes(data, other): out[other] = data
+    return [UNDECODABLE] + list(out.values())
+
 # serialized lengths (in characters) at which block-wise writers and buffers change behaviour
 MARKS = [4096, 8192, 16384, 32768, 65536, 131072, 196608]
 
@@ -72,6 +85,9 @@ def encodable(text, enc):
         text.encode(enc); return True
     except UnicodeEncodeError:
         return False
+
+
+UNDECODABLES = _more_undecodable()
 
 
 class World:
@@ -146,7 +162,7 @@ def run(ctx):
             if exact_in:
                 data, written_in, _ = exact_file(rng, ext, exact_in)
             else:
-                data, written_in = rand_file(rng, ext) if rng.random() < .93 else (UNDECODABLE, None)
+                data, written_in = rand_file(rng, ext) if rng.random() < .93 else (rng.choice(UNDECODABLES), None)
             tries = list(DEFAULT_ENCODINGS)
             mode = rng.choice(["default", "default", "custom", "explicit"])
             if mode == "custom":
@@ -157,6 +173,8 @@ def run(ctx):
             bakn = rng.choice([None, None, "in.bak", "in" + ext, "out" + ext, ""])
             if exact_in or exact_out:
                 mode = "default"; tries = list(DEFAULT_ENCODINGS); bakn = rng.choice(["in.bak", "in.bak", None]); outn = rng.choice([None, "out" + ext])
+            # "default": the library's own default list is used (the argument is left out), which the property says is these four
+            tk = {} if mode == "default" else {"try_encodings": tries}
             kind = rng.choice(["native", "memory"])
             w = World(kind, tmp, i, {"in" + ext: data, "other.txt": b"bystander", "out" + ext: b"old output"} if rng.random() < .5 else {"in" + ext: data, "other.txt": b"bystander"})
             P = lambda n: None if n is None else ("" if n == "" else w.path(n))
@@ -176,7 +194,7 @@ def run(ctx):
                 if mode == "explicit":
                     sf0 = simfile.open(cfg["input"], filesystem=w.fs, encoding=tries[0]); enc0 = tries[0]
                 else:
-                    sf0, enc0 = simfile.open_with_detected_encoding(cfg["input"], try_encodings=tries, filesystem=w.fs)
+                    sf0, enc0 = simfile.open_with_detected_encoding(cfg["input"], filesystem=w.fs, **tk)
                 opened = ("ok", enc0)
             except UnicodeDecodeError:
                 opened = ("UnicodeDecodeError",)
@@ -199,7 +217,7 @@ def run(ctx):
             romanise = rng.random() < .3      # the saved file may then decode under an earlier encoding of the list
             case["romanise"] = romanise
             try:
-                with simfile.mutate(cfg["input"], output_filename=cfg["output"], backup_filename=cfg["backup"], try_encodings=tries, filesystem=w.fs) as sf:
+                with simfile.mutate(cfg["input"], output_filename=cfg["output"], backup_filename=cfg["backup"], filesystem=w.fs, **tk) as sf:
                     entry[0] = objs.dump(sf)
                     try: texts[0] = str(sf)
                     except Exception: texts[0] = None
@@ -292,7 +310,7 @@ def run(ctx):
             del w.rec.log[:]; w.rec.wcalls = 0
             exit2 = [None]; ok2 = [True]
             try:
-                with simfile.mutate(outpath, try_encodings=tries, filesystem=w.fs, **({"backup_filename": w.path(bak2)} if bak2 else {})) as sf:
+                with simfile.mutate(outpath, filesystem=w.fs, **tk, **({"backup_filename": w.path(bak2)} if bak2 else {})) as sf:
                     entry2 = objs.dump(sf)
                     if not noop:
                         sf["SUBTITLE"] = "again " + rng.choice(REPERTOIRE[enc2])
